@@ -52,7 +52,7 @@ func highestCommon(client, server []kmip.ProtocolVersion) (kmip.ProtocolVersion,
 	return best, ok
 }
 
-var behaviours = []string{"conformant", "discovery-unsupported", "lists-not-offered", "unordered", "empty-list"}
+var behaviours = []string{"conformant", "discovery-unsupported", "lists-not-offered", "unordered", "empty-list", "discovery-unsupported-no-operation-echo"}
 
 func desc(vs []kmip.ProtocolVersion) []kmip.ProtocolVersion {
 	out := append([]kmip.ProtocolVersion{}, vs...)
@@ -124,9 +124,9 @@ func dialAndUse(c *core.Ctx, dial func(context.Context) (net.Conn, error), opts 
 func scripted(c *core.Ctx, r *core.Rand, i int) {
 	cm := 1 + i%31
 	sm := (i / 31) % 32
-	beh := behaviours[(i/(31*32))%5]
-	enforced := (i/(31*32*5))%2 == 1
-	cluster := (i/(31*32*5*2))%2 == 1
+	beh := behaviours[(i/(31*32))%6]
+	enforced := (i/(31*32*6))%2 == 1
+	cluster := (i/(31*32*6*2))%2 == 1
 	C, S := subset(cm), subset(sm)
 	common := []kmip.ProtocolVersion{}
 	for _, v := range S {
@@ -146,11 +146,17 @@ func scripted(c *core.Ctx, r *core.Rand, i int) {
 		switch beh {
 		case "conformant":
 			list = desc(common)
-		case "discovery-unsupported":
+		case "discovery-unsupported", "discovery-unsupported-no-operation-echo":
 			resp := script.OK(rx.Msg, func(int, *kmip.RequestBatchItem) kmip.OperationPayload { return nil })
 			resp.BatchItem[0].ResultStatus = kmip.ResultStatusOperationFailed
 			resp.BatchItem[0].ResultReason = kmip.ResultReasonOperationNotSupported
 			resp.BatchItem[0].ResultMessage = "not supported"
+			if beh == "discovery-unsupported-no-operation-echo" {
+				// the whole message is rejected (as an old server, or the library's own message-level error path, does):
+				// the failed item carries neither the operation nor the batch item id
+				resp.BatchItem[0].Operation = 0
+				resp.BatchItem[0].UniqueBatchItemID = nil
+			}
 			return resp
 		case "lists-not-offered":
 			list = desc(S)
@@ -217,7 +223,7 @@ func scripted(c *core.Ctx, r *core.Rand, i int) {
 	switch {
 	case enforced:
 		want, wantOK = enf, true
-	case beh == "discovery-unsupported":
+	case beh == "discovery-unsupported", beh == "discovery-unsupported-no-operation-echo":
 		want, wantOK = kmip.V1_0, has(C, kmip.V1_0)
 	case beh == "empty-list":
 		wantOK = false
@@ -390,17 +396,82 @@ func arbitraryLists(c *core.Ctx, r *core.Rand, i int) {
 	}
 }
 
+// defaultSets: clients that do NOT configure a version set (the library's default 1.0..1.4 applies) connect one after
+// the other, in ONE process, to servers advertising different subsets; each must adopt the highest version common to
+// the default set and ITS server, whatever the earlier clients met.
+func defaultSets(c *core.Ctx, r *core.Rand, i int) {
+	K := 2 + r.Intn(5)
+	hist := ""
+	for k := 0; k < K; k++ {
+		S := subset(1 + r.Intn(31))
+		list := desc(S)
+		if r.P(1, 3) {
+			for a := len(list) - 1; a > 0; a-- {
+				b := r.Intn(a + 1)
+				list[a], list[b] = list[b], list[a]
+			}
+		}
+		srv := script.NewServer(func(rx script.Received, conn *memnet.Conn) *kmip.ResponseMessage {
+			if rx.Msg.BatchItem[0].Operation != kmip.OperationDiscoverVersions {
+				return script.OK(rx.Msg, func(int, *kmip.RequestBatchItem) kmip.OperationPayload {
+					return &payloads.ActivateResponsePayload{UniqueIdentifier: "x"}
+				})
+			}
+			return script.OK(rx.Msg, func(int, *kmip.RequestBatchItem) kmip.OperationPayload {
+				return &payloads.DiscoverVersionsResponsePayload{ProtocolVersion: list}
+			})
+		})
+		hist += fmtSet(S)
+		label := fmt.Sprintf("default-set client %d of %d in one process, servers so far %s", k+1, K, hist)
+		o, ok := dialAndUse(c, func(context.Context) (net.Conn, error) { return srv.L.Dial() }, nil, label, r.P(1, 4))
+		var headers []kmip.ProtocolVersion
+		for _, rx := range srv.Received() {
+			if rx.Msg.BatchItem[0].Operation != kmip.OperationDiscoverVersions {
+				headers = append(headers, rx.Msg.Header.ProtocolVersion)
+			}
+		}
+		srv.Close()
+		if !ok {
+			return
+		}
+		c.Count("dials", 1)
+		c.Count("dials.default-set", 1)
+		want, _ := highestCommon(all, S) // never empty: S is a non-empty subset of the default set
+		if o.dialErr != nil {
+			c.Violation("C13:dial-fails:default-set", fmt.Sprintf("Dial fails (%v) although %v is common (%s)", o.dialErr, want, label), nil)
+			return
+		}
+		if o.adopted != want {
+			c.Violation("C13:wrong-version:default-set", fmt.Sprintf("adopted %v, the highest version common to the default set and this server is %v (%s)", o.adopted, want, label), nil)
+			return
+		}
+		for _, h := range headers {
+			if h != o.adopted {
+				c.Violation("C13:request-carries-other-version:default-set", fmt.Sprintf("a request carries %v, adopted %v (%s)", h, o.adopted, label), nil)
+				return
+			}
+		}
+	}
+	c.Distinct(core.Hash64("default-sets", hist))
+}
+
 func Spec() *core.Spec {
 	slog.SetDefault(slog.New(slog.NewTextHandler(io.Discard, nil)))
 	return &core.Spec{
 		ID:    "C13",
 		Level: "exploration",
-		Rule: "exhaustive: 31 non-empty client subsets x 32 server subsets of {1.0..1.4} x server behaviour {conformant, discovery unsupported, lists versions not offered, unordered list, empty list} x {enforced, not enforced} against a scripted server that records every request header " +
-			"(two requests and one cloned client after each Dial; client options given in seeded order with duplicates), plus 31 x 31 against the library's own executor restricted with SetSupportedProtocolVersions; compared with a 10-line reference function. every scripted case through Dial and through DialCluster; seeded arbitrary server lists (duplicates, versions unknown to the library, any order/length) and discovery failing with other reasons; distinct = distinct configurations",
-		Required: []string{"dials.conformant", "dials.discovery-unsupported", "dials.lists-not-offered", "dials.unordered", "dials.empty-list", "dials.library-server", "dials.cluster", "dials.arbitrary-lists", "arbitrary.discovery-failed", "expected_failures", "followup_headers"},
+		Rule: "exhaustive: 31 non-empty client subsets x 32 server subsets of {1.0..1.4} x server behaviour {conformant, discovery unsupported (failed item; failed item without operation echo), lists versions not offered, unordered list, empty list} x {enforced, not enforced} against a scripted server that records every request header " +
+			"(two requests and one cloned client after each Dial; client options given in seeded order with duplicates), plus 31 x 31 against the library's own executor restricted with SetSupportedProtocolVersions; compared with a 10-line reference function. every scripted case through Dial and through DialCluster; sequences of 2-6 default-set clients against servers with different subsets in one process; seeded arbitrary server lists (duplicates, versions unknown to the library, any order/length) and discovery failing with other reasons; distinct = distinct configurations",
+		Required: []string{"dials.conformant", "dials.discovery-unsupported", "dials.lists-not-offered", "dials.unordered", "dials.empty-list", "dials.discovery-unsupported-no-operation-echo", "dials.default-set", "dials.library-server", "dials.cluster", "dials.arbitrary-lists", "arbitrary.discovery-failed", "expected_failures", "followup_headers"},
 		Families: []core.Family{
-			{Name: "scripted", Exhaustive: true, N: func(string) int { return 31 * 32 * 5 * 2 * 2 }, Run: scripted},
+			{Name: "scripted", Exhaustive: true, N: func(string) int { return 31 * 32 * 6 * 2 * 2 }, Run: scripted},
 			{Name: "library-server", Exhaustive: true, N: func(string) int { return 31 * 31 }, Run: libraryServer},
+			{Name: "default-sets", N: func(tier string) int {
+				if tier == core.Thorough {
+					return 40000
+				}
+				return 400
+			}, Run: defaultSets},
 			{Name: "arbitrary-lists", N: func(tier string) int {
 				if tier == core.Thorough {
 					return 400000
